@@ -65,7 +65,20 @@ type tokMat struct {
 }
 
 func newTokMat(c *Ctx) *tokMat {
-	return &tokMat{poolFile: randBytes(c, 64), k1File: randBytes(c, 32), k2File: randBytes(c, 24), attacker: randBytes(c, 32)}
+	// key files are binary: lengths vary from run to run (1 byte .. longer than a hash block), and some
+	// begin / end with bytes that look like white space or a line end -- a loader that "tidies" the
+	// file (TrimSpace, dropping a final newline) holds another key than the one that signed
+	ws := []byte{' ', '\n', '\t', '\r'}
+	edge := func(b []byte) []byte {
+		if len(b) >= 2 {
+			b[0] = ws[c.Rng.Intn(len(ws))]
+			b[len(b)-1] = ws[c.Rng.Intn(len(ws))]
+		}
+		return b
+	}
+	sizes := []int{1, 7, 16, 24, 32, 33, 64, 100, 200}
+	pick := func() int { return sizes[c.Rng.Intn(len(sizes))] }
+	return &tokMat{poolFile: edge(randBytes(c, 32+pick())), k1File: edge(randBytes(c, 8+pick())), k2File: randBytes(c, pick()), attacker: randBytes(c, 32)}
 }
 
 func (m *tokMat) baseCfg(c *Ctx) cfgKnobs {
@@ -77,7 +90,9 @@ func (m *tokMat) baseCfg(c *Ctx) cfgKnobs {
 	}
 }
 
-var tokSubs = []string{"alice@pool.example", "bob", "carol@a@b", "d@", "eve@htc", "x"}
+// subjects: case, non-ASCII and inner white space must survive unchanged into the recorded identity
+var tokSubs = []string{"alice@pool.example", "bob", "carol@a@b", "d@", "eve@htc", "x",
+	"Alice@Pool.Example", "BOB", "mIxEd.Case@HTC", "z\u00fcrich@x", "first last@pool.example", "\u0130stanbul"}
 
 func flipBit(c *Ctx, s string, lo, hi int) string {
 	b := []byte(s)
@@ -238,6 +253,13 @@ func serverDeviations() []srvDev {
 		{name: "iat-age-max-minus-1", expect: "", mut: setTime("iat", func(n, a int64) string { return fmt.Sprint(n - a + 1) })},
 		{name: "iat-very-old", expect: "reject", mut: setRaw("iat", "1000")},
 		{name: "iat-future", expect: "accept", mut: setTime("iat", func(n, a int64) string { return fmt.Sprint(n + 500) })},
+		// nbf ("not before"): the token's validity has not begun / begins now / began earlier
+		{name: "nbf-future", expect: "reject", mut: setTime("nbf", func(n, _ int64) string { return fmt.Sprint(n + 120) })},
+		{name: "nbf-next-second-but-one", expect: "reject", mut: setTime("nbf", func(n, _ int64) string { return fmt.Sprint(n + 2) })},
+		{name: "nbf-now", mut: setTime("nbf", func(n, _ int64) string { return fmt.Sprint(n) })},
+		{name: "nbf-past", expect: "accept", mut: setTime("nbf", func(n, _ int64) string { return fmt.Sprint(n - 30) })},
+		{name: "nbf-string", expect: "reject", mut: setRaw("nbf", `"17"`)},
+		{name: "nbf-far-future-exponent", expect: "reject", mut: setRaw("nbf", "4e9")},
 		{name: "iat-absent", expect: "accept", mut: delClaim("iat")},
 		{name: "iat-string", expect: "reject", mut: setRaw("iat", `"now"`)},
 		{name: "iat-bool", expect: "reject", mut: setRaw("iat", `true`)},
@@ -673,6 +695,13 @@ func verifyDeviations() []verDev {
 		{name: "iat-age-max-plus-1", expect: "reject", mut: setTime("iat", func(n, a int64) string { return fmt.Sprint(n - a - 1) })},
 		{name: "iat-age-max-minus-1", mut: setTime("iat", func(n, a int64) string { return fmt.Sprint(n - a + 1) })},
 		{name: "iat-future", expect: "accept", mut: setTime("iat", func(n, a int64) string { return fmt.Sprint(n + 500) })},
+		// nbf ("not before"): the token's validity has not begun / begins now / began earlier
+		{name: "nbf-future", expect: "reject", mut: setTime("nbf", func(n, _ int64) string { return fmt.Sprint(n + 120) })},
+		{name: "nbf-next-second-but-one", expect: "reject", mut: setTime("nbf", func(n, _ int64) string { return fmt.Sprint(n + 2) })},
+		{name: "nbf-now", mut: setTime("nbf", func(n, _ int64) string { return fmt.Sprint(n) })},
+		{name: "nbf-past", expect: "accept", mut: setTime("nbf", func(n, _ int64) string { return fmt.Sprint(n - 30) })},
+		{name: "nbf-string", expect: "reject", mut: setRaw("nbf", `"17"`)},
+		{name: "nbf-far-future-exponent", expect: "reject", mut: setRaw("nbf", "4e9")},
 		{name: "iat-absent", expect: "accept", mut: del("iat")},
 		{name: "iat-string", expect: "reject", mut: setRaw("iat", `"x"`)},
 		{name: "maxage-config-100-exceeded", expect: "reject", pre: func(c *Ctx, m *tokMat, kn *cfgKnobs) { kn.maxAge = 100 },
